@@ -47,6 +47,8 @@ type Program struct {
 	repoRoot       string
 	initVals       map[*ssa.Global]func(ex *Exec, st *State) Val
 	staleContracts []string
+	autoDead map[string]bool // dropped inferred invariants: loopKey|label
+	autoVar  map[string]int  // which candidate variant is being tried per loop
 }
 
 const repoModule = "github.com/gabriel-vasile/mimetype"
@@ -76,7 +78,7 @@ func loadProgram(root string) (*Program, error) {
 		ufuns: map[string]*UFun{}, forceUnroll: map[string]bool{},
 		loopCache: map[*ssa.Function]map[*ssa.BasicBlock]*loopInfo{}, ordCache: map[*ssa.Function]map[ssa.Instruction]int{},
 		funcIDs: map[*ssa.Function]int{}, funcByID: map[T]VFunc{}, nextFn: 1000,
-		poolTypes: map[*ssa.Global]types.Type{}, poolNew: map[*ssa.Function]*ssa.Global{}, stores: map[*ssa.Global]int{}, repoRoot: root}
+		autoDead: map[string]bool{}, autoVar: map[string]int{}, poolTypes: map[*ssa.Global]types.Type{}, poolNew: map[*ssa.Function]*ssa.Global{}, stores: map[*ssa.Global]int{}, repoRoot: root}
 	_ = spkgs
 	for _, sp := range sprog.AllPackages() {
 		if !strings.HasPrefix(sp.Pkg.Path(), repoModule) {
@@ -390,4 +392,16 @@ func (p *Program) lookupFuncByID(id T) (VFunc, bool) {
 	defer p.mu.Unlock()
 	f, ok := p.funcByID[id]
 	return f, ok
+}
+
+func (p *Program) autoAlive(loopKey, label string) bool {
+	p.mu.Lock()
+	defer p.mu.Unlock()
+	return !p.autoDead[loopKey+"|"+label]
+}
+
+func (p *Program) autoVariantIdx(loopKey string) int {
+	p.mu.Lock()
+	defer p.mu.Unlock()
+	return p.autoVar[loopKey]
 }
